@@ -151,6 +151,20 @@ def only_new_channel_left(before, after, name):
 
 
 def h_atomic(shape):
+    inner = _h_atomic(shape)
+
+    def h(inp):
+        # kwmode: the same calls with every argument passed by keyword
+        l2.KW_MODE[0] = bool(shape.get("kwmode"))
+        try:
+            return inner(inp)
+        finally:
+            l2.KW_MODE[0] = False
+
+    return h
+
+
+def _h_atomic(shape):
     def h(inp):
         stubs.bind(inp)
         seq = l2.new_seq(shape["device"])
@@ -366,6 +380,9 @@ def kernels(tier):
         for a in firsts:
             for b in names:
                 ks.append(("atomic", dict(device="virt_maxseq", prefix=pre, ops=[a, b])))
+    for pre in ("p1", "p2"):
+        for a in names:
+            ks.append(("atomic", dict(device="virt_maxseq", prefix=pre, ops=[a], kwmode=True)))
     for ops in (["mag_zero"], ["mag_zero", "mag_zero"], ["mag", "mag_zero"], ["declare_used", "mag_zero"], ["mag_zero", "declare_used"]):
         ks.append(("atomic", dict(device="mock", prefix="pe", ops=ops)))
     for pre in ("p0", "p1"):
